@@ -25,7 +25,7 @@ pub mod io
                 let (_k, fail) = async_std::model::begin_op();
                 if fail
                 {
-                    return Err(async_std::io::Error);
+                    return Err(async_std::io::injected());
                 }
             }
             Ok(())
